@@ -401,6 +401,10 @@ pub struct RngPlan {
     pub seed: u64,
     pub windows: Vec<RngWindow>,
     pub try_fill_fails: bool,
+    /// `try_fill_bytes` succeeds until this many 64-bit words have been drawn, then starts failing
+    /// (an entropy source that dries up in mid-use)
+    #[serde(default)]
+    pub try_fill_fails_after: Option<u64>,
 }
 
 impl RngPlan {
@@ -493,7 +497,7 @@ impl<'a> rand_core::RngCore for SimRng<'a> {
     }
     fn try_fill_bytes(&mut self, dest: &mut [u8]) -> Result<(), rand_core::Error> {
         self.try_fill_calls += 1;
-        if self.plan.try_fill_fails {
+        if self.plan.try_fill_fails || self.plan.try_fill_fails_after.map(|n| self.draws >= n).unwrap_or(false) {
             return Err(rand_core::Error::new("sim: entropy source failed"));
         }
         self.fill_bytes(dest);
